@@ -383,7 +383,6 @@ fn c20_ipv4_events_icmp() {
 //# encodes: logger::MetaLogger::{ipv4_recv,ipv4_send,ipv4_drop}
 //# bounds: 20-byte IPv4 header symbolic, protocol 6, 19 transport bytes; layer-4 reply of 20 bytes or silence; self-IP list absent or {a4}
 //# stubs: layer_4::{icmpv4,tcp,udp}::repl -> contract stubs recording the event sequence number at call time
-//# cover: answered
 //# cover: dropped before layer 4
 #[kani::proof]
 #[kani::unwind(26)]
